@@ -398,6 +398,10 @@ pub fn handle_mutation_h<Tr: ?Sized + Trait, B: Backend, BY: Backend, E: Elem + 
     {
         let mut h = v.swap_remove(i);
         vp_assert!(h.as_bytes_ptr() as usize != 0, "VP: handle pointer null");
+        vp_assert!(h.value_typeid() == TypeId::of::<E>(), "VP: removal handle reports wrong type id");
+        vp_assert!(h.size() == size_of::<E>(), "VP: removal handle reports wrong size");
+        vp_assert!(h.as_bytes().len() == size_of::<E>() && h.as_bytes().as_ptr() as usize == h.as_bytes_ptr() as usize, "VP: removal handle byte view is not the element's bytes");
+        vp_assert!(h.as_bytes_mut().len() == size_of::<E>(), "VP: removal handle mutable byte view has wrong length");
         h.downcast_mut::<E>().unwrap().set_tag(t2);
         y.push(h);
     }
